@@ -104,13 +104,10 @@ func transBlock(transE func(Expr) Expr, transS func(Stmt) Stmt, bl Block) Block 
 	return Block{Stmts: nss, FinalExpr: fexpr}
 }
 
-func transRecType(transT func(FType) FType, rt RecordType) RecordType {
+func newRecTypeWith(ntps []FType, transT func(FType) FType, rt RecordType) RecordType {
 	ri := lookupRecInfo(rt)
-	ntps := frt.Pipe(slice.Map(func(_v1 NameTypePair) FType {
-		return _v1.Ftype
-	}, ri.Fields), (func(_r0 []FType) []FType { return slice.Map(transT, _r0) }))
-	names := slice.Map(func(_v2 NameTypePair) string {
-		return _v2.Name
+	names := slice.Map(func(_v1 NameTypePair) string {
+		return _v1.Name
 	}, ri.Fields)
 	nfields := frt.Pipe(slice.Zip(names, ntps), (func(_r0 []frt.Tuple2[string, FType]) []NameTypePair {
 		return slice.Map(func(tp frt.Tuple2[string, FType]) NameTypePair {
@@ -122,6 +119,14 @@ func transRecType(transT func(FType) FType, rt RecordType) RecordType {
 	nrt := RecordType{Name: rt.Name, Targs: ntargs}
 	updateRecInfo(nrt, nri)
 	return nrt
+}
+
+func transRecType(transT func(FType) FType, rt RecordType) RecordType {
+	ri := lookupRecInfo(rt)
+	ntps := frt.Pipe(slice.Map(func(_v1 NameTypePair) FType {
+		return _v1.Ftype
+	}, ri.Fields), (func(_r0 []FType) []FType { return slice.Map(transT, _r0) }))
+	return newRecTypeWith(ntps, transT, rt)
 }
 
 func transExpr(transT func(FType) FType, transV func(Var) Var, transS func(Stmt) Stmt, transB func(Block) Block, expr Expr) Expr {
@@ -244,14 +249,21 @@ func collectTVarFTypeWithSet(visited SSet, ft FType) []string {
 		return recurse(fa.RecType)
 	case FType_FRecord:
 		rt := _v9.Value
-		ri := lookupRecInfo(rt)
-		fres := frt.Pipe(frt.Pipe(ri.Fields, (func(_r0 []NameTypePair) []FType {
-			return slice.Map(func(_v1 NameTypePair) FType {
-				return _v1.Ftype
-			}, _r0)
-		})), (func(_r0 []FType) []string { return slice.Collect(recurse, _r0) }))
-		tres := frt.Pipe(rt.Targs, (func(_r0 []FType) []string { return slice.Collect(recurse, _r0) }))
-		return slice.Append(fres, tres)
+		rkey := rtToKey(rt)
+		return frt.IfElse(SSetHasKey(visited, rkey), (func() []string {
+			return frt.Pipe(rt.Targs, (func(_r0 []FType) []string { return slice.Collect(recurse, _r0) }))
+		}), (func() []string {
+			SSetPut(visited, rkey)
+			ri := lookupRecInfo(rt)
+			fres := frt.Pipe(frt.Pipe(ri.Fields, (func(_r0 []NameTypePair) []FType {
+				return slice.Map(func(_v1 NameTypePair) FType {
+					return _v1.Ftype
+				}, _r0)
+			})), (func(_r0 []FType) []string { return slice.Collect(recurse, _r0) }))
+			SSetRemove(visited, rkey)
+			tres := frt.Pipe(rt.Targs, (func(_r0 []FType) []string { return slice.Collect(recurse, _r0) }))
+			return slice.Append(fres, tres)
+		}))
 	case FType_FUnion:
 		ut := _v9.Value
 		uname := uniToKey(ut)
@@ -454,7 +466,18 @@ func transTVFTypeWithSet(visited SSet, transTV func(TypeVar) FType, ftp FType) F
 		return frt.Pipe(ParamdType{Name: pt.Name, Targs: nts}, New_FType_FParamd)
 	case FType_FRecord:
 		rt := _v17.Value
-		return frt.Pipe(transRecType(recurse, rt), New_FType_FRecord)
+		rkey := rtToKey(rt)
+		return frt.IfElse(SSetHasKey(visited, rkey), (func() FType {
+			return ftp
+		}), (func() FType {
+			SSetPut(visited, rkey)
+			ri := lookupRecInfo(rt)
+			ntps := frt.Pipe(slice.Map(func(_v1 NameTypePair) FType {
+				return _v1.Ftype
+			}, ri.Fields), (func(_r0 []FType) []FType { return slice.Map(recurse, _r0) }))
+			SSetRemove(visited, rkey)
+			return frt.Pipe(newRecTypeWith(ntps, recurse, rt), New_FType_FRecord)
+		}))
 	case FType_FUnion:
 		ut := _v17.Value
 		uname := uniToKey(ut)
@@ -463,11 +486,11 @@ func transTVFTypeWithSet(visited SSet, transTV func(TypeVar) FType, ftp FType) F
 		}), (func() FType {
 			SSetPut(visited, uname)
 			cases := utCases(ut)
-			ntps := frt.Pipe(slice.Map(func(_v1 NameTypePair) FType {
-				return _v1.Ftype
+			ntps := frt.Pipe(slice.Map(func(_v2 NameTypePair) FType {
+				return _v2.Ftype
 			}, cases), (func(_r0 []FType) []FType { return slice.Map(recurse, _r0) }))
-			names := slice.Map(func(_v2 NameTypePair) string {
-				return _v2.Name
+			names := slice.Map(func(_v3 NameTypePair) string {
+				return _v3.Name
 			}, cases)
 			ncases := frt.Pipe(slice.Zip(names, ntps), (func(_r0 []frt.Tuple2[string, FType]) []NameTypePair {
 				return slice.Map(func(tp frt.Tuple2[string, FType]) NameTypePair {
